@@ -158,14 +158,18 @@ TraceInit ==
 
 Consume == l <= Len(Rec) /\ l' = l + 1
 
+\* (the domain condition is evaluated on the logged universe through an instance of Universe with `uni`
+\* substituted, not as UniverseValid': TLC evaluates primed state functions of this size without caching,
+\* minutes instead of milliseconds for a universe of a few hundred transactions)
+UV(u) == INSTANCE Universe WITH uni <- u
 TraceUniverse ==
   /\ Consume /\ R.ev = "universe"
   /\ uni' = R.uni
   /\ nad' = R.naddr
   /\ Install(InitState(R.cfg))
   /\ lastq' = NoQ /\ upg' = FALSE
-  /\ bad' = ~(UniverseValid')       \* outside the properties' domain: nothing is claimed
-  /\ (UniverseValid' \/ Note("TOOLERROR", "universe", "a block of the universe is not transaction-valid"))
+  /\ bad' = ~(UV(R.uni)!UniverseValid)       \* outside the properties' domain: nothing is claimed
+  /\ (UV(R.uni)!UniverseValid \/ Note("TOOLERROR", "universe", "a block of the universe is not transaction-valid"))
 
 Skip ==      \* records of a diverged segment, and records that carry no information
   /\ Consume /\ R.ev # "universe" /\ (bad \/ R.ev = "skip")
